@@ -104,6 +104,8 @@ def main():
         r = core.run_tlc("MCDecoder", cfg, workdir=run.work, workers=4)
         failed = bool(r.error)
         expect(failed == should_fail, "model %s %s" % (cfg, "has a TLC counterexample" if should_fail else "satisfies RefIsLastNonDisposable"))
+    r = core.run_tlc("MbLoop", "MbLoopPinned", workdir=run.work, workers=2)
+    expect(bool(r.error), "model MbLoopPinned (unbounded macroblock loop of the pinned tree) lets the count pass the picture")
     outcome, _, _ = core.run_apalache("DecoderIndTrStore", ["--init=IndInit", "--inv=IndInv", "--length=1"], run.work)
     expect(outcome == "Error", "Apalache: with disposable pictures in the TR-keyed store the invariant is not inductive")
     # ---- (3) known-findings protocol
